@@ -435,7 +435,7 @@ def gen(rng, force=None):
     coverage-guaranteeing cases."""
     force = force or {}
     kind = force.get("kind") or rng.choices(["mesh", "sketch"], [0.6, 0.4])[0]
-    size = rng.choice([1.0, 1.0, 1.0, 0.1, 10.0])
+    size = force.get("size") or rng.choice([1.0, 1.0, 1.0, 0.1, 10.0, 1e-4])  # 1e-4: a 0.1 mm model built in metres
     jitter = rng.choice([0.05, 0.12, 0.12, 0.2])
     general = rng.random() < 0.75
     frame = geom.orthonormal_frame(rng) if general else np.eye(3)
@@ -554,7 +554,11 @@ def gen(rng, force=None):
     case = {"kind": kind, "topo": topo, "size": size, "points": pts, "cells": cells, "clamps": clamps, "links": links,
             "method": force.get("method") or rng.choice(METHODS), "iterations": iterations,
             "tolerance": rng.choice([0.1, 1e-3, 1e-6]), "failpoint": None, "auto": bool(auto), "calls": calls,
-            "report": rng.random() < 0.3}
+            "report": rng.random() < 0.3,
+            # links built from the live position arrays of the mesh vertices (as the library's own tests do)
+            "link_args": force.get("link_args") or rng.choice(["copies", "vertex-arrays"]),
+            # between two optimize() calls the mesh is back-ported (re-assembled: new Vertex objects)
+            "between_calls": force.get("between_calls") or (rng.choice([None, "mesh.backport"]) if kind == "mesh" and calls == 2 else None)}
     fp = force.get("failpoint")
     if fp or (fp is None and rng.random() < 0.3):
         nsteps = len(clamps) + (len(set(range(nv)) - quad_boundary(cells)) if auto else 0)
